@@ -228,6 +228,10 @@ def run(chk, rnd, tmp, base):
                      'TagRename', 'Crash'], workers=16, timeout=3000)
     res = chk.tlc('RegistryImpl', cfg_impl(2, 2, 1, 2, 'inplace', os.path.join(tmp, 'ri0.cfg')), expect_ok=False, workers=4)
     chk.selftest('model_refutes_in_place_writes', res.violated == 'Consistent')
+    # extension beyond the listed property (reported, never a verdict): two concurrent trainers lose a commit
+    ext = chk.tlc('RegistryConcurrent', 'RegistryConcurrent.cfg', expect_ok=False, workers=4)
+    chk.extra['extension_two_concurrent_trainers'] = {'violated': ext.violated, 'states': ext.distinct,
+                                                        'meaning': 'design-level race of Release.put (list, then close): not part of C05'}
     # ---- 2. histories
     length = 4 if chk.quick else 5
     res = chk.tlc('RegistryOps', cfg_ops(nr, maxgen, maxstates, length, os.path.join(tmp, 'ro.cfg')), require=['Publish', 'Train'], workers=4)
